@@ -901,3 +901,213 @@ def check_C20(sc, v, tier, seed, replay):
             return "Race:" + e.get("where", "")[:80]
         return "Op:%s:%s" % (e.get("op"), "stress" if str(e.get("id", "")).startswith("stress") else "schedule")
     _reject_to_violation(v, rejects, key)
+
+
+# ------------------------------------------------------------------------------------------------
+# C08 / C09  NAS codec and TS 24.501 wire layout
+# ------------------------------------------------------------------------------------------------
+def _nas_isolated():
+    """(message, IEI) pairs listed as known findings: generated only in dedicated single-IE cases so that they do not mask the other IEs"""
+    import re
+    out = set()
+    for pid in ("C08", "C09"):
+        for k in vlib.load_known(pid):
+            m = re.match(r"NAS:(\w+):IEI ([0-9A-Fa-f]+)", k["key"].replace("\\", ""))
+            if m:
+                out.add((m.group(1), int(m.group(2), 16)))
+    return out
+
+
+def _nas_cases(rnd, table, shapes, tier):
+    """abstract messages for GenNas: per message type optional-IE subsets x per-IE lengths x random contents, plus a permutation"""
+    import itertools
+    byname = {s["name"]: s for s in shapes}
+    cases = []
+    idn = 0
+
+    def val_len(fmt, fixed, sh, mode, iei=-1):
+        cap = sh["cap"] if sh else 8
+        if fmt == "V":
+            return fixed
+        if fmt == "TV":
+            return fixed - 1
+        if fmt == "TV1":
+            return 1
+        big = fmt in ("LVE", "TLVE")
+        if sh and sh["kind"] == "octet":
+            return 1                      # a single octet behind a length field: the only well-formed length is 1
+        if sh and sh["kind"] in ("lv-array", "lve-array"):
+            # array-backed IEs are sized to the standard's maximum; most of them have a fixed length in TS 24.501, so only the
+            # capacity is used unless the IE is known to be variable (5GMM capability 1..13, S-NSSAI 1|2|4|5|8, PDU address 5|9|13,
+            # S1 UE network capability 2..13)
+            allowed = {16: [1, 2, 12, 13], 34: [1, 2, 4, 5, 8], 41: [5, 9, 13], 23: [2, 3, 13]}.get(iei, [cap])
+            return allowed[mode % len(allowed)]
+        if big:
+            return [0, 1, 255, 256, 700, rnd.randrange(40)][mode % 6]
+        return [0, 1, 17, 255, rnd.randrange(30)][mode % 5]
+
+    isolated = _nas_isolated()
+    for name in sorted(table):
+        t = table[name]
+        sh = byname.get(name)
+        sm = (sh or {}).get("mand") or []
+        so = (sh or {}).get("opt") or []
+        mshapes = sm if len(sm) == len(t["mand"]) else [None] * len(t["mand"])
+        oshapes = so if len(so) == len(t["opt"]) else [None] * len(t["opt"])
+        k = len(t["opt"])
+        if k <= (10 if tier != "quick" else 4):
+            subsets = [list(c) for r in range(k + 1) for c in itertools.combinations(range(k), r)]
+        else:
+            subsets = [[], list(range(k))] + [[i] for i in range(k)]
+            for _ in range(200 if tier != "quick" else 12):
+                subsets.append([i for i in range(k) if rnd.random() < 0.5])
+        reps = 1 if tier == "quick" else 3
+        iso_idx = [i for i in range(k) if (name, t["opt"][i][0]) in isolated]
+        subsets = [[i for i in sub if i not in iso_idx] for sub in subsets] + [[i] for i in iso_idx for _ in range(3)]
+        for sub in subsets:
+            for rep in range(reps):
+                mode = rnd.randrange(12)
+                hdr = [0] if t["epd"] == 126 else [rnd.randrange(256), rnd.randrange(256)]
+                mand = []
+                for (row, s2) in zip(t["mand"], mshapes):
+                    n = val_len(row[1], row[2], s2, mode + len(mand))
+                    mand.append([rnd.randrange(256) for _ in range(n)])
+                opt = []
+                for i in sub:
+                    row = t["opt"][i]
+                    if row[1] == "TV1":
+                        v = [rnd.randrange(16)]
+                    else:
+                        n = val_len(row[1], row[2], oshapes[i], mode + i + rep, row[0])
+                        v = [rnd.randrange(256) for _ in range(n)]
+                    opt.append({"iei": row[0], "v": v})
+                perm = list(range(1, len(opt) + 1))
+                if len(opt) > 1:
+                    choice = rnd.randrange(4)
+                    if choice == 0:
+                        perm.reverse()
+                    elif choice == 1:
+                        perm = perm[1:] + perm[:1]
+                    elif choice == 2:
+                        rnd.shuffle(perm)
+                cases.append({"id": idn, "kind": "msg", "name": name, "hdr": hdr, "mand": mand, "opt": opt, "perm": perm})
+                idn += 1
+    known5gmm = {t["mt"] for t in table.values() if t["epd"] == 126}
+    known5gsm = {t["mt"] for t in table.values() if t["epd"] == 46}
+    for mt in range(256):
+        if mt not in known5gmm and (tier != "quick" or mt % 16 == 1):
+            cases.append({"id": idn, "kind": "unknown", "bytes": [126, 0, mt, 0, 0, 0]})
+            idn += 1
+        if mt not in known5gsm and (tier != "quick" or mt % 16 == 2):
+            cases.append({"id": idn, "kind": "unknown", "bytes": [46, 5, 1, mt, 0, 0]})
+            idn += 1
+    return cases
+
+
+def _nas_run(sc, v, tier, seed, which):
+    import concurrent.futures as cf
+    import random
+    import shutil
+    rnd = random.Random(seed * 1033 + 8)
+    sc.build(["rec-nas"])
+    shp = os.path.join(sc.work, "shapes.json")
+    pathp = os.path.join(sc.work, "path.ndjson")
+    sc.run("rec-nas", ["-shapes", shp, "-path", pathp])
+    shapes = json.load(open(shp))
+    d = sc.specdir()
+    tablep = os.path.join(sc.work, "nastable.json")
+    empty = os.path.join(sc.work, "empty.ndjson")
+    open(empty, "w").close()
+    r = vlib.run_tlc(d, "GenNas", vlib.cfg_text({"TracePath": empty, "OutPath": tablep}, init="DumpInit", nxt="DumpNext", post="Dumped"), name="DumpNas", timeout=300)
+    if not r.ok:
+        raise HarnessError("dumping the TS 24.501 tables failed: " + r.error)
+    table = json.load(open(tablep))
+    cases = _nas_cases(rnd, table, shapes, tier)
+    skp = os.path.join(sc.work, "nasskel.ndjson")
+    open(skp, "w").write("\n".join(json.dumps(c) for c in cases) + "\n")
+    chunks, _ = vlib.split_lines(skp, vlib.NCPU, sc.work, "nasskel")
+
+    def gen(c):
+        d2 = sc.specdir()
+        outp = c[0].replace("nasskel", "nascases")
+        r2 = vlib.run_tlc(d2, "GenNas", vlib.cfg_text({"TracePath": c[0], "OutPath": outp}, post="Consumed"), timeout=2400, heap="4g")
+        shutil.rmtree(d2, ignore_errors=True)
+        if not r2.ok:
+            raise HarnessError("GenNas failed: " + r2.error)
+        return outp, r2
+    with cf.ThreadPoolExecutor(max_workers=vlib.NCPU) as ex:
+        gens = list(ex.map(gen, chunks))
+    v.add_tlc([g[1] for g in gens])
+    obsp = os.path.join(sc.work, "nasobs.ndjson")
+    with open(obsp, "w") as o:
+        for outp, _ in gens:
+            t = outp.replace("nascases", "nasobs1")
+            sc.run("rec-nas", ["-replay", outp, "-out", t])
+            o.write(open(t).read())
+        o.write(open(pathp).read())
+    results, rejects, lines = vlib.validate_trace(sc, "TraceNas", obsp, timeout=2400)
+    v.add_tlc(results)
+    v.traces = len(results)
+    evs = [json.loads(l) for l in lines]
+    v.evaluations = len(evs)
+    names = set()
+    pairs = set()
+    for e in evs:
+        if e["ev"] == "Nas" and e["kind"] == "msg":
+            names.add(e["abs"]["name"])
+            for o in e["abs"]["opt"]:
+                pairs.add((e["abs"]["name"], o["iei"]))
+            v.distinct.add(hash(canon(e["abs"])))
+        else:
+            v.distinct.add(hash(canon(e.get("canon", e.get("bytes")))))
+    v.extra["message_types"] = len(names)
+    v.extra["message_optional_ie_pairs"] = len(pairs)
+    # library tables vs the transcription (number of optional IEs per message)
+    tnames = {n: len(table[n]["opt"]) for n in table}
+    lnames = {s["name"]: len(s["opt"] or []) for s in shapes}
+    v.extra["messages_only_in_library"] = sorted(set(lnames) - set(tnames))
+    v.samples = [{k: evs[0][k] for k in ("abs", "canon")}, [e for e in evs if e["ev"] == "Path"][0]]
+    mine = [r for r in rejects if r["why"].startswith(which + ":")]
+    other = [r for r in rejects if not r["why"].startswith(which + ":")]
+    if other:
+        vlib.log("note: %d reject(s) belong to the sibling property" % len(other))
+
+    def key(r, e):
+        if e.get("ev") == "Path":
+            return "PATH:%s:%s" % (e.get("fn"), r["why"].split(": ")[-1][:50])
+        if e.get("kind") == "unknown":
+            return "NAS:unknown-message-type"
+        m, o = e["abs"], e["obs"]
+        if o.get("err"):
+            ieis = [x["iei"] for x in m["opt"]]
+            return "NAS:%s:IEI %02X" % (m["name"], ieis[0]) if len(ieis) == 1 else "NAS:%s:rejected" % m["name"]
+        a = o["abs"]
+        if a["mand"] != m["mand"] or a["hdr"] != m["hdr"] or a["name"] != m["name"]:
+            return "NAS:%s:mandatory" % m["name"]
+        for w, g in zip(m["opt"], a["opt"]):
+            if w != g:
+                return "NAS:%s:IEI %02X" % (m["name"], w["iei"])
+        if len(m["opt"]) != len(a["opt"]):
+            return "NAS:%s:IEI %02X" % (m["name"], (m["opt"] + a["opt"])[min(len(m["opt"]), len(a["opt"]))]["iei"])
+        return "NAS:%s:%s" % (m["name"], r["why"][5:50])
+    _reject_to_violation(v, mine, key)
+    return table, shapes
+
+
+def check_C08(sc, v, tier, seed, replay):
+    _nas_run(sc, v, tier, seed, "C08")
+    v.rule = ("44 plain message types (28 5GMM + 16 5GSM) x optional-IE subsets (all 2^k for k <= 4|10, else empty/full/singletons/random) x IE lengths "
+              "{0, 1, capacity-1, capacity} for array-backed LV/TLV, {0,1,17,255} / {0,1,255,256,700} for buffers, both nibbles of half-octet IEs, random "
+              "contents; encoded by the TS 24.501 encoder of Nas24501.tla in canonical and permuted IE order, decoded / re-encoded by the library; "
+              "every message type octet not in the tables as unknown; distinct = distinct abstract message")
+    v.assumptions = ["the security protected 5GS NAS message (8.2.28) is covered by C06/C10, not here",
+                     "well-formed = every length field equals the length of its contents"]
+
+
+def check_C09(sc, v, tier, seed, replay):
+    _nas_run(sc, v, tier, seed, "C09")
+    v.rule = ("the same generated encodings as C08 judged against the tables: the library must decode the TS 24.501 encoding of every message to the "
+              "intended message type, mandatory values in order and optional [IEI, value] list (message type octets, IEIs, formats, length widths); "
+              "the 10 constructor calls on the emulator's path are parsed by the independent parser Nas24501!NasDecode to the intended values; "
+              "distinct = distinct abstract message")
+    v.assumptions = ["Nas24501.tla is my transcription of TS 24.501 Release 15 clauses 8.2/8.3 (rows adjudicated from the standard's text; see DESIGN)"]
